@@ -160,8 +160,9 @@ deriving Repr
 
 /-- `fetchUnlinkedFile`. `drain` selects the code with (`true`) or without the
     `io.Copy(io.Discard, tr)` that reads the response to its end, so that the
-    fixed and the unfixed code share one text. -/
-def fetchCore (P : Params) (drain : Bool) (arena : Arena) (key uri : Bytes) (r : Resp) : FileResult :=
+    fixed and the unfixed code share one text. `hashed` is what the TeeReader
+    has written into the hash when `Sum` is called. -/
+def fetchCoreH (P : Params) (drain : Bool) (arena : Arena) (key uri : Bytes) (r : Resp) (hashed : Bytes) : FileResult :=
   if uri = [] then ⟨[], none⟩ else
   match digestParse key with
   | none => ⟨[], none⟩
@@ -187,10 +188,15 @@ def fetchCore (P : Params) (drain : Bool) (arena : Arena) (key uri : Bytes) (r :
   | some payload =>
   if drain && r.term ≠ .eof then
     ⟨[.lookup false, .request, .status true, .detect (some k), .ctype (some ct), .want (some w), .copy true, .drain false], none⟩ else
-  if P.hash dg.algo r.body ≠ dg.checksum then
+  if P.hash dg.algo hashed ≠ dg.checksum then
     ⟨[.lookup false, .request, .status true, .detect (some k), .ctype (some ct), .want (some w), .copy true, .drain true, .compare false], none⟩ else
   ⟨[.lookup false, .request, .status true, .detect (some k), .ctype (some ct), .want (some w), .copy true, .drain true,
     .compare true, .publish key payload], some payload⟩
+
+/-- With the response read to its end, everything delivered has gone through the
+    TeeReader (`Stream` below: `drain_covers_stream`). -/
+def fetchCore (P : Params) (drain : Bool) (arena : Arena) (key uri : Bytes) (r : Resp) : FileResult :=
+  fetchCoreH P drain arena key uri r r.body
 
 /-- The code as it is now (reads the response to its end before the comparison). -/
 def fetchUnlinked (P : Params) := fetchCore P true
@@ -198,6 +204,58 @@ def fetchUnlinked (P : Params) := fetchCore P true
 /-- The code before the `fix:` commit: the checksum is compared as soon as the
     decompressor reports the end of *its* input. -/
 def fetchUnlinkedNoDrain (P : Params) := fetchCore P false
+
+/-! ### the reader stack: transport pieces, TeeReader, consumers with arbitrary read sizes -/
+
+/-- The body as the transport hands it out: `chunks` are the successive pieces
+    (a `Read` returns at most the rest of the current piece), then `term`. -/
+structure Stream where
+  chunks : List Bytes
+  term : Term
+deriving Repr
+
+def Stream.bytes (s : Stream) : Bytes := s.chunks.flatten
+
+/-- `io.TeeReader(resp.Body, vh)`: what is still to come, and what has been
+    written into the hash so far. -/
+structure Tee where
+  rest : List Bytes
+  hashed : Bytes
+deriving Repr
+
+/-- One `Read` with a buffer of `n + 1` bytes: at most the rest of the current
+    piece; whatever is returned is written into the hash. -/
+def Tee.read (t : Tee) (n : Nat) : Bytes × Tee :=
+  match t.rest with
+  | [] => ([], t)
+  | c :: cs =>
+    (c.take (n + 1), ⟨if c.drop (n + 1) = [] then cs else c.drop (n + 1) :: cs, t.hashed ++ c.take (n + 1)⟩)
+
+/-- A consumer (bufio's `Peek`, a decompressor) issuing reads of the given sizes. -/
+def Tee.readMany (t : Tee) : List Nat → Bytes × Tee
+  | [] => ([], t)
+  | n :: ns =>
+    let (b, t') := t.read n
+    let (bs, t'') := t'.readMany ns
+    (b ++ bs, t'')
+
+/-- `io.Copy(io.Discard, tr)`: 8 KiB reads until the transport has nothing more. -/
+def Tee.drainFuel : Nat → Tee → Tee
+  | 0, t => t
+  | fuel + 1, t => if t.rest = [] then t else Tee.drainFuel fuel (t.read 8191).2
+
+def Tee.size (t : Tee) : Nat := t.rest.flatten.length + t.rest.length
+
+def Tee.drain (t : Tee) : Tee := Tee.drainFuel t.size t
+
+/-- The fetch over a transport stream: a consumer reads with the sizes `ns`
+    (whatever the sniffing and the decompressor do), the remainder is drained
+    (in the code with the fix), and the checksum is taken of what went through
+    the TeeReader. -/
+def fetchStream (P : Params) (drain : Bool) (arena : Arena) (key uri : Bytes) (r : Resp) (s : Stream) (ns : List Nat) : FileResult :=
+  let t := (Tee.readMany ⟨s.chunks, []⟩ ns).2
+  let t := if drain then t.drain else t
+  fetchCoreH P drain arena key uri { r with body := s.bytes, term := s.term } t.hashed
 
 /-! ### fetchInto / RealizeDescriptions / Close: the arena across calls -/
 
@@ -256,15 +314,17 @@ def fetchInto (P : Params) (a : Arena) (rq : Req) : Arena × Option View :=
     | some v => (a.ref rq.key payload, some v)
 
 /-- The layers of one `RealizeDescriptions` call, in order. Result: arena, keys
-    referenced so far, views so far, and whether every layer succeeded. -/
-def realizeLoop (P : Params) : Arena → List Req → List Bytes → List View → Arena × List Bytes × List View × Bool
-  | a, [], ks, vs => (a, ks, vs, true)
-  | a, rq :: rest, ks, vs =>
+    referenced, views, and whether every layer succeeded. After a failure the
+    errgroup's context is cancelled and the remaining layers end in error as
+    well; the keys are those referenced up to the failure. -/
+def realizeLoop (P : Params) : Arena → List Req → Arena × List Bytes × List View × Bool
+  | a, [] => (a, [], [], true)
+  | a, rq :: rest =>
     match fetchInto P a rq with
-    | (a', none) =>
-      -- the errgroup's context is cancelled; the remaining layers end in error as well
-      (a', ks, vs, false)
-    | (a', some v) => realizeLoop P a' rest (ks ++ [rq.key]) (vs ++ [v])
+    | (a', none) => (a', [], [], false)
+    | (a', some v) =>
+      match realizeLoop P a' rest with
+      | (a'', ks, vs, ok) => (a'', rq.key :: ks, v :: vs, ok)
 
 def unrefAll (a : Arena) (ks : List Bytes) : Arena := ks.foldl Arena.unref a
 
@@ -288,7 +348,7 @@ deriving DecidableEq, Repr
 
 def step (P : Params) (s : State) : Op → State × Out
   | .realize id reqs hold =>
-    match realizeLoop P s.arena reqs [] [] with
+    match realizeLoop P s.arena reqs with
     | (a, ks, _, false) => ({ s with arena := unrefAll a ks }, .err)
     | (a, ks, vs, true) =>
       if hold then ({ arena := a, open_ := (id, ks) :: s.open_ }, .ok vs)
